@@ -98,6 +98,13 @@ def gen_webvtt(rng, tag, text=None):
     strict = rng.random() < 0.4
     n = rng.randrange(1, 9)
     tl = instants(rng, n, 1000, sorted_=strict or rng.random() < 0.5)
+    if strict and n > 1 and rng.random() < 0.3:
+        # cues that start together (or at zero) are in order: only a start *before* the previous one is an error
+        k = rng.randrange(1, n)
+        tl[k] = (tl[k - 1][0], max(tl[k][1], tl[k - 1][0] + 1000))
+        if rng.random() < 0.3:
+            tl[0] = (0, tl[0][1])
+        feats.add('equal-starts-strict')
     shift = rng.choice([0, 0, 1, -1, 999, -999, 3600000, -3600000, 15])
     if shift < 0:
         lo = min(a for a, _ in tl)
@@ -127,7 +134,13 @@ def gen_webvtt(rng, tag, text=None):
                                ' line:0 position:20% size:60% align:start'])
         if settings:
             feats.add('settings')
-        doc += f'{spell_vtt(rng, a, feats)} --> {spell_vtt(rng, b, feats)}{settings}{nl}'
+        # the separators around the arrow (and before the settings) are one or more blanks or tabs
+        sep1, sep2 = rng.choice([(' ', ' ')] * 5 + [('\t', '\t'), (' ', '\t'), ('\t', ' '), ('  ', ' '), (' \t', '\t ')])
+        if sep1 + sep2 != '  ':
+            feats.add('tab-or-wide-arrow-separator')
+        if settings and rng.random() < 0.2:
+            settings = '\t' + settings[1:]
+        doc += f'{spell_vtt(rng, a, feats)}{sep1}-->{sep2}{spell_vtt(rng, b, feats)}{settings}{nl}'
         lines = [] if empty else (text or inline.plain_lines)(rng, f'{tag}.{i}', 'webvtt')
         for ln in lines:
             doc += inline.render(ln, 'webvtt', rng) + nl
